@@ -71,6 +71,16 @@ func c10Scenarios() []hpScenario {
 		add(hpScenario{Hosts: 1, RouteTimeoutMs: 1000, MaxRequests: th, Requests: []hpRequest{ow(upReply200), {Token: "t2", Script: []string{upReply200}}}})
 		add(hpScenario{Hosts: 1, RouteTimeoutMs: 1000, MaxRequests: th, Sequential: true, Settle: true, Requests: []hpRequest{{Token: "t2", Script: []string{upClose}}, ow(upReply200), {Token: "t3", Script: []string{upReply200}}}})
 	}
+	// send failures: the peer is gone when the n-th upstream write happens (admitted, not flushed)
+	for _, th := range []uint32{0, 1} {
+		for n := 1; n <= 2; n++ {
+			add(hpScenario{Hosts: 1, RouteTimeoutMs: 1000, MaxRequests: th, UpBreakAtWrite: n, Requests: []hpRequest{ow(upReply200)}})
+			add(hpScenario{Hosts: 1, RouteTimeoutMs: 1000, MaxRequests: th, UpBreakAtWrite: n, Requests: []hpRequest{{Token: "t1", Oneway: true, Body: true, Script: []string{upReply200}}}})
+			add(hpScenario{Hosts: 2, RouteTimeoutMs: 1000, MaxRequests: th, MaxRetries: th, UpBreakAtWrite: n, Requests: one(upReply200)})
+			add(hpScenario{Hosts: 2, RouteTimeoutMs: 1000, MaxRequests: th, MaxRetries: th, UpBreakAtWrite: n, RetryOn: true, NumRetries: 1, Requests: one(upReply200, upReply200)})
+			add(hpScenario{Hosts: 1, RouteTimeoutMs: 1000, MaxRequests: th, UpBreakAtWrite: n, Sequential: true, Settle: true, Requests: []hpRequest{{Token: "t2", Script: []string{upReply200}}, ow(upReply200), {Token: "t3", Script: []string{upReply200}}}})
+		}
+	}
 	add(hpScenario{Hosts: 2, RouteTimeoutMs: 1000, FailHosts: []int{0, 1}, Requests: one(upReply200)})
 	add(hpScenario{Hosts: 2, RouteTimeoutMs: 1000, FailHosts: []int{0}, RetryOn: true, Requests: one(upReply200)})
 	add(hpScenario{Hosts: 1, NoRoute: true, RouteTimeoutMs: 1000, Requests: one(upReply200)})
@@ -110,6 +120,9 @@ func c10Causes(sc *hpScenario) string {
 				set["error-reply"] = true
 			}
 		}
+	}
+	if sc.UpBreakAtWrite > 0 {
+		set["send-failure"] = true
 	}
 	if sc.RetryOn {
 		set["retry-policy"] = true
